@@ -962,9 +962,13 @@ theorem exec_setPerTicket_s {hash : List Nat → List Nat} {t t' : Tx} {e : Env}
   obtain ⟨hst, hd, ha, rfl⟩ := h
   exact ⟨rfl, by simpa using hst, by simpa using hd, by simpa using ha⟩
 
-theorem validCost_ok {c : Pay} (h : validCost c = .ok ()) : 0 < c.amount := by
+theorem validCost_ok {lp : Nat} {c : Pay} (h : validCost lp c = .ok ()) : 0 < c.amount := by
   unfold validCost at h
-  split at h <;> simp only [bind_ok_iff, req_ok_iff, exists_const] at h <;> simpa using h.2
+  split at h <;> simp only [bind_ok_iff, req_ok_iff, exists_const] at h <;> simpa using h.2.1
+
+theorem validCost_ne_lp {lp : Nat} {c : Pay} (h : validCost lp c = .ok ()) : c.tok ≠ .esdt lp := by
+  unfold validCost at h
+  split at h <;> simp only [bind_ok_iff, req_ok_iff, exists_const] at h <;> simpa using h.2.2
 
 theorem exec_setNftCost_s {hash : List Nat → List Nat} {t t' : Tx} {e : Env} {c : Pay}
     (h : exec hash t e (.setNftCost c) = .ok t') :
